@@ -124,9 +124,28 @@ def offConfig : Ptrs := Ptrs.initial.turnOff
 /-- the number of function pointers / entry points the obligation was checked for -/
 def wiringSize : Nat × Nat := (fptrs.length, entries.length)
 
-/-- the property's lock clause for one operation from a state with the lock free -/
+/-- the property's lock clause for one operation from a state with nobody inside a wrapper: the
+    wrapper gets the lock (does not block), and when it is left - by whatever exit - the lock is
+    free again and the flag is clear -/
 def LockFreeAfter (op : DetOp) (d : Det) : Prop :=
-  ∃ s', wrapper op { lock := .free, det := d } = some s' ∧ s'.lock = .free
+  ∃ s', wrapper op (Sys.idle d) = some s' ∧ s'.lf = LF.idle
+
+/-- the same for an arbitrary version of the scoped-lock code (used to show what each regenerated
+    statement is needed for) -/
+def LockFreeAfterWith (c : Code) (op : DetOp) (d : Det) : Prop :=
+  ∃ s', wrapperWith c op (Sys.idle d) = some s' ∧ s'.lf = LF.idle
+
+/-- the flag never claims a lock that is not held -/
+def FlagImpliesHeld (s : LF) : Bool := !s.flag || (s.lock == .held)
+
+/-- `memLeakMutexIsHeld` says exactly whether the mutex is held -/
+def FlagIffHeld (s : LF) : Bool := s.flag == (s.lock == .held)
+
+/-- the regenerated code with one ingredient of the repair taken out (what the code looked like
+    before the repair, and the two ways of getting the repair wrong that the hints name) -/
+def Code.withoutReleaseCall (c : Code) : Code := { c with fail := c.fail.filter (· != .releaseBeforeFailing) }
+def Code.withoutFlagSet (c : Code) : Code := { c with ctor := c.ctor.filter (· != .simple (.setFlag true)) }
+def Code.withoutFlagClear (c : Code) : Code := { c with dtor := c.dtor.filter (· != .simple (.setFlag false)) }
 
 
 /-! ## ownership discipline of a schedule (no detector involved)
